@@ -119,6 +119,13 @@ class Normalizer:
                     r["id"], r["sp"], r["nf"] = n.get("id"), n.get("sp"), "NF12"
                     return r
             return n
+        if k == "If" and n.get("else") is not None and n.get("ty") in INT_BITS:
+            # NF16: if b { 1 } else { 0 }  ->  b as T      (and  if b { 0 } else { 1 }  ->  !b as T)
+            t_, e_ = _int(_peel_block(n["then"])), _int(_peel_block(n["else"]))
+            if (t_, e_) in ((1, 0), (0, 1)) and isinstance(n.get("cond"), dict) and n["cond"].get("ty") == "bool":
+                c_ = n["cond"] if (t_, e_) == (1, 0) else self.rewrite({"k": "Unary", "op": "!", "e": n["cond"], "id": n["cond"].get("id"), "ty": "bool", "sp": n["cond"].get("sp")})
+                return {"k": "Cast", "e": c_, "ty": n["ty"], "id": n.get("id"), "sp": n.get("sp"), "nf": "NF16"}
+            return n
         if k == "Binary":
             return self._binary(n)
         if k == "Call":
